@@ -373,4 +373,68 @@ theorem formatInt_lit (i : Int) : isIntLit (formatInt i) = true ∧ intVal (form
     refine ⟨h1, ?_⟩
     rw [h2, bytesVal_formatUint]; omega
 
+/-! ### typed tokens (jsontext.Int / jsontext.Uint) -/
+
+theorem tokenInt_zero (pf : Bytes → Fl) : tokenInt pf [48] = (0, .none) := by
+  rw [tokenInt_spec, if_pos (by decide), if_pos (by decide)]; rfl
+
+theorem tokenUint_zero (pf : Bytes → Fl) : tokenUint pf [48] = (0, .none) := by
+  rw [tokenUint_spec, if_pos (by decide), if_pos (by decide)]; rfl
+
+theorem int64_roundtrip (n : Int) (h1 : -(2 ^ 63 : Int) ≤ n) (h2 : n < 2 ^ 63) :
+    (Int64.ofInt n).toUInt64.toInt64.toInt = n := by
+  rw [Int64.toInt64_toUInt64, Int64.toInt_ofInt_of_le (by simpa using h1) (by simpa using h2)]
+
+theorem int64_toNat (n : Int) (h1 : 0 ≤ n) (h2 : n < 2 ^ 63) : (Int64.ofInt n).toUInt64.toNat = n.toNat := by
+  have hx : (0 : Int64) ≤ Int64.ofInt n := by
+    rw [Int64.le_iff_toInt_le, Int64.toInt_ofInt_of_le (by omega) (by simpa using h2)]; simpa using h1
+  rw [Int64.toNat_toUInt64_of_le hx, Int64.toNatClampNeg, Int64.toInt_ofInt_of_le (by omega) (by simpa using h2)]
+
+/-- jsontext.Int(n).Int() is exact for every int64. -/
+theorem mkInt_tokInt (pf : Bytes → Fl) (n : Int) (h1 : -(2 ^ 63 : Int) ≤ n) (h2 : n < 2 ^ 63) :
+    tokInt pf (mkInt n) = (n, .none) := by
+  unfold mkInt
+  by_cases h0 : n = 0
+  · subst h0; exact tokenInt_zero pf
+  · rw [if_neg (by simpa using h0)]
+    simp only [tokInt, int64_roundtrip n h1 h2]
+
+/-- jsontext.Int(n).Uint(): negative values give 0 with a syntax error, others are exact. -/
+theorem mkInt_tokUint (pf : Bytes → Fl) (n : Int) (h1 : -(2 ^ 63 : Int) ≤ n) (h2 : n < 2 ^ 63) :
+    tokUint pf (mkInt n) = if n < 0 then (0, .syntax) else (n.toNat, .none) := by
+  unfold mkInt
+  by_cases h0 : n = 0
+  · subst h0; exact tokenUint_zero pf
+  · rw [if_neg (by simpa using h0)]
+    have hlt : ((Int64.ofInt n).toUInt64.toInt64 < 0) ↔ n < 0 := by
+      rw [Int64.toInt64_toUInt64, Int64.lt_iff_toInt_lt, Int64.toInt_ofInt_of_le (by simpa using h1) (by simpa using h2)]
+      simp
+    simp only [tokUint]
+    by_cases hn : n < 0
+    · rw [if_pos (hlt.2 hn), if_pos hn]
+    · rw [if_neg (fun hh => hn (hlt.1 hh)), if_neg hn, int64_toNat n (by omega) h2]
+
+/-- jsontext.Uint(u).Uint() is exact for every uint64. -/
+theorem mkUint_tokUint (pf : Bytes → Fl) (u : Nat) (h : u < 2 ^ 64) : tokUint pf (mkUint u) = (u, .none) := by
+  unfold mkUint
+  by_cases h0 : u = 0
+  · subst h0; exact tokenUint_zero pf
+  · rw [if_neg (by simpa using h0)]
+    simp only [tokUint, ofNat_toNat_lt u h]
+
+/-- jsontext.Uint(u).Int(): exact up to and including MaxInt64 = 2^63−1, saturated with a range error above. -/
+theorem mkUint_tokInt (pf : Bytes → Fl) (u : Nat) (h : u < 2 ^ 64) :
+    tokInt pf (mkUint u) = if u < 2 ^ 63 then ((u : Int), .none) else (2 ^ 63 - 1, .range) := by
+  unfold mkUint
+  by_cases h0 : u = 0
+  · subst h0; exact tokenInt_zero pf
+  · rw [if_neg (by simpa using h0)]
+    have h63 : (9223372036854775807 : UInt64).toNat = 2 ^ 63 - 1 := by decide
+    have hgt : (UInt64.ofNat u > 9223372036854775807) ↔ ¬ u < 2 ^ 63 := by
+      rw [gt_iff_lt, UInt64.lt_iff_toNat_lt, ofNat_toNat_lt u h, h63]; omega
+    simp only [tokInt]
+    by_cases hu : u < 2 ^ 63
+    · rw [if_neg (fun hh => (hgt.1 hh) hu), if_pos hu, toInt_pos u hu]
+    · rw [if_pos (hgt.2 hu), if_neg hu]
+
 end JsonV.Lemmas.NumInt
